@@ -448,6 +448,28 @@ impl AssemblyCode {
                     {
                         swap_both = true;
                     }
+                    // The flags set by a compare may be tested by more than one branch: the
+                    // compare and its branch can only be dropped if no other branch follows
+                    let mut followed_by_branch = false;
+                    loop {
+                        match iter.peek() {
+                            Some(AsmLine::Instruction(i3)) => {
+                                followed_by_branch = matches!(
+                                    i3.mnemonic,
+                                    AsmMnemonic::BEQ
+                                        | AsmMnemonic::BNE
+                                        | AsmMnemonic::BCC
+                                        | AsmMnemonic::BCS
+                                        | AsmMnemonic::BMI
+                                        | AsmMnemonic::BPL
+                                );
+                                break;
+                            }
+                            Some(AsmLine::Dummy) | Some(AsmLine::Comment(_)) => continue,
+                            _ => break,
+                        }
+                    }
+                    iter.reset_peek();
                     // Check CMP and remove the branck if the result is obvious
                     if let Some(r) = &accumulator {
                         if r.starts_with("#")
@@ -458,12 +480,12 @@ impl AssemblyCode {
                             match i2.mnemonic {
                                 AsmMnemonic::BNE => {
                                     if *r == i1.dasm_operand && !i2.protected{
-                                        remove_both = true;
+                                        remove_both = !followed_by_branch;
                                     }
                                 }
                                 AsmMnemonic::BEQ => {
                                     if *r != i1.dasm_operand && !i2.protected {
-                                        remove_both = true;
+                                        remove_both = !followed_by_branch;
                                     }
                                 }
                                 _ => (),
@@ -479,12 +501,12 @@ impl AssemblyCode {
                             match i2.mnemonic {
                                 AsmMnemonic::BNE => {
                                     if *r == i1.dasm_operand && !i2.protected {
-                                        remove_both = true;
+                                        remove_both = !followed_by_branch;
                                     }
                                 }
                                 AsmMnemonic::BEQ => {
                                     if *r != i1.dasm_operand && !i2.protected {
-                                        remove_both = true;
+                                        remove_both = !followed_by_branch;
                                     }
                                 }
                                 _ => (),
@@ -500,12 +522,12 @@ impl AssemblyCode {
                             match i2.mnemonic {
                                 AsmMnemonic::BNE => {
                                     if *r == i1.dasm_operand && !i2.protected {
-                                        remove_both = true;
+                                        remove_both = !followed_by_branch;
                                     }
                                 }
                                 AsmMnemonic::BEQ => {
                                     if *r != i1.dasm_operand && !i2.protected {
-                                        remove_both = true;
+                                        remove_both = !followed_by_branch;
                                     }
                                 }
                                 _ => (),
